@@ -14,7 +14,9 @@ const nQuick, nThorough = 350, 6000
 var profile = envh.Profile{MaxHooks: 8, MaxReqs: 8, FailP: 300, BodyFailP: 100, IllegalP: 60, TaskHookP: 300, FloatP: 150,
 	TeardownP: 40, ControlP: 200}
 
-const rule = "random walks of 1..8 requests over 0..8 hooks where 30% of hook executions fail (call error / task non-zero exit), critical or not, " +
+const rule = "every sixth case a late collection (a call awaited at a later weight pass / later moment / later transition than its trigger, with a short " +
+	"timeout of its own (6..10 ms) and a healthy slow hook (5x that) between its start and its await point; failing or not, critical or not), every third a cluster " +
+	"(several hooks failing at one point); otherwise random walks of 1..8 requests over 0..8 hooks where 30% of hook executions fail (call error / task non-zero exit), critical or not, " +
 	"alone or several at one point; non-trivial = at least one failing execution scripted and actually executed, and >=2 requests; distinct by input text"
 
 // clusterCase: SEVERAL hooks failing at the SAME trigger point with mixed criticality (calls and task
@@ -69,6 +71,90 @@ func clusterCase(r *rng.R) fw.Case {
 	// the failing transition again (scripts fail 3 times), then something else
 	reqs.Add(sx.L(sx.A("T"), sx.A(t.ev), sx.B(true), sx.B(false)))
 	return fw.Case{Input: sx.L(hooks, reqs, sx.I(r.Range(0, 2))).String(), Tags: []string{"cluster", "critical-failures"}}
+}
+
+// lateCollectCase: a call whose result is collected LATE — its await point is another point than its trigger
+// (a later weight pass of the same moment, a later moment of the same transition, a later transition), the call
+// itself returns at once, and more wall-clock time than the call's own `timeout` passes before the state machine
+// reaches the await point, because a healthy SLOW hook (a probe taking 5x the timeout) sits in between. The call
+// fails (3/4) or not, is critical (3/4) or not. The documentation: "Regardless of when in time the call actually
+// finishes, its result isn't collected until the environment state machine reaches [the await moment]" and "The ECS
+// will not abort the call upon reaching the timeout value" — so the failure must take effect at the await point
+// exactly as if it had been collected at once.
+func lateCollectCase(r *rng.R) fw.Case {
+	type tr struct{ ev, src, dst string }
+	path := []tr{{"DEPLOY", "STANDBY", "DEPLOYED"}, {"CONFIGURE", "DEPLOYED", "CONFIGURED"}, {"START_ACTIVITY", "CONFIGURED", "RUNNING"}, {"STOP_ACTIVITY", "RUNNING", "CONFIGURED"}}
+	var pts []string // the moments of the walk, in the order they are visited
+	for _, t := range path {
+		pts = append(pts, "before_"+t.ev, "leave_"+t.src, "enter_"+t.dst, "after_"+t.ev)
+	}
+	timeout := r.Range(6, 10)
+	dur := 5 * timeout
+	crit, fails := r.P(3, 4), r.P(3, 4)
+	outs := sx.L()
+	if fails {
+		for j := 0; j < 8; j++ {
+			outs.Add(sx.B(true))
+		}
+	}
+	hooks := sx.L()
+	shape := ""
+	var last int // index in pts of the await moment
+	switch r.N(4) {
+	case 0: // later weight pass of the same moment: started in the negative pass, awaited in the other one
+		shape = "late-collect-same-moment"
+		i := r.N(len(pts))
+		last = i
+		hooks.Add(sx.L(sx.I(0), sx.A("call"), sx.B(crit), sx.A(pts[i]), sx.I(-r.Range(5, 20)), sx.A(pts[i]), sx.I(r.Range(5, 20)), outs, sx.I(timeout), sx.I(0)))
+		sw := rng.Pick(r, []int{-3, 0, 2})
+		hooks.Add(sx.L(sx.I(1), sx.A("call"), sx.B(false), sx.A(pts[i]), sx.I(sw), sx.A(pts[i]), sx.I(sw), sx.L(), sx.I(0), sx.I(dur)))
+	case 1: // later moment of the same transition
+		shape = "late-collect-same-transition"
+		k := r.N(len(path))
+		a := r.Range(0, 2)
+		b := r.Range(a+1, 3)
+		last = 4*k + b
+		hooks.Add(sx.L(sx.I(0), sx.A("call"), sx.B(crit), sx.A(pts[4*k+a]), sx.I(rng.Pick(r, []int{-10, 0, 5})), sx.A(pts[4*k+b]), sx.I(rng.Pick(r, []int{-10, 0, 5})), outs, sx.I(timeout), sx.I(0)))
+		c := r.Range(a, b)
+		sw := 0
+		if c == a {
+			sw = 30 // after the call has been started
+		} else if c == b {
+			sw = -30 // before it is awaited
+		}
+		hooks.Add(sx.L(sx.I(1), sx.A("call"), sx.B(false), sx.A(pts[4*k+c]), sx.I(sw), sx.A(pts[4*k+c]), sx.I(sw), sx.L(), sx.I(0), sx.I(dur)))
+	default: // a later transition
+		shape = "late-collect-later-transition"
+		k1 := r.Range(0, len(path)-2)
+		k2 := r.Range(k1+1, len(path)-1)
+		a, b := 4*k1+r.N(4), 4*k2+r.N(4)
+		last = b
+		hooks.Add(sx.L(sx.I(0), sx.A("call"), sx.B(crit), sx.A(pts[a]), sx.I(rng.Pick(r, []int{-10, 0, 5})), sx.A(pts[b]), sx.I(rng.Pick(r, []int{-10, 0, 5})), outs, sx.I(timeout), sx.I(0)))
+		c := r.Range(a+1, b)
+		sw := 0
+		if c == b {
+			sw = -30
+		}
+		hooks.Add(sx.L(sx.I(1), sx.A("call"), sx.B(false), sx.A(pts[c]), sx.I(sw), sx.A(pts[c]), sx.I(sw), sx.L(), sx.I(0), sx.I(dur)))
+	}
+	// something that must (not) run after the await point
+	hooks.Add(sx.L(sx.I(2), sx.A(rng.Pick(r, []string{"call", "task"})), sx.B(r.Bool()), sx.A(pts[last]), sx.I(60), sx.A(pts[last]), sx.I(60), sx.L()))
+	rng.Shuffle(r, hooks.List)
+	reqs := sx.L()
+	for i := 0; i <= last/4; i++ {
+		reqs.Add(sx.L(sx.A("T"), sx.A(path[i].ev), sx.B(true), sx.B(false)))
+	}
+	// the transition of the await point again (a cancelled one can be retried), or the next one
+	if r.Bool() {
+		reqs.Add(sx.L(sx.A("T"), sx.A(path[last/4].ev), sx.B(true), sx.B(false)))
+	} else {
+		reqs.Add(sx.L(sx.A("T"), sx.A(path[(last/4+1)%len(path)].ev), sx.B(true), sx.B(false)))
+	}
+	tags := []string{"late-collect", "slow-call", "floating-await", shape}
+	if fails && crit {
+		tags = append(tags, "critical-failures", "late-collect-critical-failure")
+	}
+	return fw.Case{Input: sx.L(hooks, reqs, sx.I(r.Range(0, 2))).String(), Tags: tags}
 }
 
 func nontrivial(input, obs string) bool {
